@@ -10,6 +10,7 @@
 //
 //	blockedread <variant>   variants: stdin, fifo (non-seekable, io.ReadAll fallback path),
 //	                        regread, regseek (regular seekable file, ctxreadseeker path; the read is forced by a decode),
+//	                        regtostring (same, read forced by gojq's tostring encoder: known finding, KNOWN verdict),
 //	                        main (Interp.Main of `fq -d json .` on a blocked stdin),
 //	                        crs-read, crs-seek, crs-close (ctxreadseeker itself under a real stack)
 package main
@@ -325,7 +326,7 @@ func blockedCrs(kind string) (verdict, text string) {
 	}
 }
 
-var blockedVariants = []string{"stdin", "fifo", "regread", "regseek", "main", "crs-read", "crs-seek", "crs-close"}
+var blockedVariants = []string{"stdin", "fifo", "regread", "regtostring", "regseek", "main", "crs-read", "crs-seek", "crs-close"}
 
 func blockedVariant(name string) (verdict, text string) {
 	force := "tobytes | tostring | length"
@@ -341,11 +342,15 @@ func blockedVariant(name string) (verdict, text string) {
 		b := newBlocker("read", 2)
 		files := map[string]func() fs.File{"reg": func() fs.File { return bseekfile{&bfile{b: b, data: blockedData, regular: true}} }}
 		// regread: the read is forced by a decode; regtostring: by gojq's own encoder (tostring/tojson),
-		// which panics on the read error that Binary.JQValueToGoJQ hands it (reported finding; not part
-		// of the default run until it is decided, reachable by replaying `blockedread regtostring`)
+		// which panics on the read error that Binary.JQValueToGoJQ hands it (known finding
+		// tostring-binary-read-error-panic in known_findings.json)
 		expr := map[string]string{"regread": "open | json | .a | length", "regtostring": "open | " + force}[name]
 		v, t := blockedEval(name, `"reg"`, expr, b, newBos(&bfile{b: newBlocker("none", 0)}, files, nil))
-		if name == "regtostring" && v == "PROPFAIL" && strings.Contains(t, "PANIC") {
+		// KNOWN only for exactly that defect: the contexts behave as required (innermost cancelled,
+		// enclosing live) and the evaluation dies with the encoder's panic on the cancellation error
+		if name == "regtostring" && v == "PROPFAIL" &&
+			strings.Contains(t, "contexts 00/11 -> 01/10 (expected") &&
+			strings.Contains(t, `saw "PANIC: invalid type: *errors.errorString (context canceled)"`) {
 			return "KNOWN", "tostring-binary-read-error-panic " + t
 		}
 		return v, t
